@@ -117,6 +117,7 @@ def C05_verdict_stop_can_interrupt_execute :
 
 theorem C05_group_facts_in_source :
     Generated.Subproc.ok = true ∧ Generated.Subproc.ownProcessGroup = true ∧
-    Generated.Subproc.killGroupIsSigkillToMinusPid = true ∧ Generated.Subproc.stopDelayMs = 10 := by decide
+    Generated.Subproc.killGroupIsSigkillToMinusPid = true ∧ Generated.Subproc.stopDelayMs = 10 ∧
+    Generated.Subproc.stopKillsGroupBeforeWaiting = true := by decide
 
 end GoUtils.Props.C05
